@@ -14,6 +14,8 @@ import (
 	"strconv"
 	"strings"
 
+	"github.com/rs/zerolog"
+
 	"verif/harness/comp"
 )
 
@@ -40,6 +42,7 @@ func class(res string) string {
 }
 
 func main() {
+	zerolog.SetGlobalLevel(zerolog.Disabled)
 	if len(os.Args) < 3 {
 		fmt.Fprintln(os.Stderr, "usage: pcharness gen|replay <component> ... ; components:", comp.Names())
 		os.Exit(2)
